@@ -67,7 +67,8 @@ extern "C" int harness_main()
 		cfg.out[AA].append(std::make_shared<tap>(0));
 		cfg.out[AA].append(std::static_pointer_cast<sink>(drp));
 		cfg.out[BA].append(std::make_shared<tap>(1));
-		cfg.net.append(std::make_shared<queue>(tios, 0, duration(vp_choose(2) == 0 ? 1000000 : 1500000000), 0, "net"));
+		long const lat_choice[3] = {1000000L, 1500000000L, 4295000123000L};   // 1 ms, 1.5 s, beyond 2^32 us
+		cfg.net.append(std::make_shared<queue>(tios, 0, duration(lat_choice[vp_choose(3)]), 0, "net"));
 		asio::io_context aios(s, AA), bios(s, BA);
 		s.log_pcap("vp_capture.pcap");
 		error_code ec;
